@@ -439,6 +439,71 @@ theorem schema_routes :
     findRoute "default" floatCoerce = some "coerce.ToFloat[float64]" := by
   refine ⟨fun ty => by cases ty <;> decide, by decide, by decide⟩
 
+/-! ## `engine.parsePrimitiveValue` and the `Parse` methods (round 4c, audit M5) -/
+
+set_option maxRecDepth 100000
+
+/-- **The coercion branch of `parsePrimitiveValue`, as it is in the source**: under `internals.Coerce` the helper is
+    `coerce.To[T]` applied to the INPUT UNCHANGED (`.param 0`), success is `err == nil`, and the coerced value `v` is
+    handed to `validateWithChecks(v, internals.Checks, validator, ctx)` — literally the call the `input.(T)` branch
+    makes (first step of `parsePrimitiveValue_steps`): same checks, same validator, same context.  That is
+    `CoerceSchema.parseValue`'s `| .ok v => Prim.checked … false v` — "validates the coerced value exactly as the
+    non-coercing schema validates that value". -/
+theorem parsePrimitiveValue_coerce_table :
+    parsePrimitiveValue_coerce = { guard := "internals.Coerce", helper := "coerce.To[T]", args := [.param 0], bound := "v", success := "err == nil", validate := "validateWithChecks", validateArgs := ["v", "internals.Checks", "validator", "ctx"] } ∧
+    parsePrimitiveValue_steps.head? = some ("v, ok := input.(T); ok",
+      "return " ++ parsePrimitiveValue_coerce.validate ++ "(" ++ ", ".intercalate parsePrimitiveValue_coerce.validateArgs ++ ")") := by
+  decide
+
+/-- **The order of `parsePrimitiveValue`'s tests** is the order of `CoerceSchema.parseValue`'s branches: `input.(T)`,
+    `input.(*T)` (nil pointer → `handleNilPointer`, else `validatePointer`), `input == nil`, the reflection
+    dereference (nil → `handleNilPointer`, a `T` → `validateWithChecks`), THEN the coercion, then the invalid-type
+    issue: coercion is attempted only after every exact type match failed, and nothing but the error follows it. -/
+theorem parsePrimitiveValue_order :
+    parsePrimitiveValue_steps.map Prod.fst =
+      ["v, ok := input.(T); ok", "p, ok := input.(*T); ok", "input == nil", "", "nilPtr", "v, ok := deref.(T); ok",
+       "internals.Coerce", "", "", ""] ∧
+    parsePrimitiveValue_steps.lookup "p, ok := input.(*T); ok" =
+      some "if p == nil { return handleNilPointer[T](internals, expectedType, ctx) }; return validatePointer(*p, p, internals.Checks, validator, ctx)" ∧
+    parsePrimitiveValue_steps.lookup "v, ok := deref.(T); ok" = some "return validateWithChecks(v, internals.Checks, validator, ctx)" ∧
+    parsePrimitiveValue_steps.lookup "nilPtr" = some "return handleNilPointer[T](internals, expectedType, ctx)" ∧
+    (parsePrimitiveValue_steps.drop 7).map Prod.snd =
+      ["raw := issues.CreateInvalidTypeIssue(expectedType, input)", "raw.Inst = internals",
+       "return nil, issues.NewZodError([]core.ZodIssue{issues.FinalizeIssue(raw, ctx, nil)})"] := by
+  decide
+
+/-- The Go base type of a schema receiver for a target of the property. -/
+def Tgt.recv : Tgt → String
+  | .int _ => "ZodIntegerTyped" | .f32 | .f64 => "ZodFloatTyped" | .bool => "ZodBool" | .str => "ZodString" | .big => "ZodBigInt"
+
+def findParse (recv : String) : List ParseRoute → Option ParseRoute
+  | [] => none
+  | r :: rs => if r.recv = recv then some r else findParse recv rs
+
+/-- **Schema routing, every target**: the `Parse` method of the schema type serving target `t` calls
+    `engine.ParsePrimitive` on its input unchanged with the validator `engine.ApplyChecks[T]`, where `T` is the
+    target's Go type (the generic `T` of the integer / float schemas ranges over the element types) — and
+    `coerce.To[T]` routes that `T` to the helper the model's `to` uses (`To_routes`).  Bool, String and BigInt
+    schemas included (they have no `Coerce`-method switch; before round 4c their routing was tied by the run only). -/
+theorem schema_parse_routes (t : Tgt) :
+    ∃ r, findParse (Tgt.recv t) primitiveParse = some r ∧ r.entry = "engine.ParsePrimitive" ∧ r.input = .param 0 ∧
+      r.validator = "engine.ApplyChecks[" ++ r.base ++ "]" ∧ (r.base = "T" ∨ r.base = Tgt.goName t) ∧
+      (r.pre = "" ∨ t = .big) ∧
+      findRoute (Tgt.goName t) Gen.CoerceDispatch.To = some (Tgt.helper t) := by
+  cases t with
+  | int ty => exact ⟨_, rfl, rfl, rfl, rfl, Or.inl rfl, Or.inl rfl, To_routes _⟩
+  | f32 => exact ⟨_, rfl, rfl, rfl, rfl, Or.inl rfl, Or.inl rfl, To_routes _⟩
+  | f64 => exact ⟨_, rfl, rfl, rfl, rfl, Or.inl rfl, Or.inl rfl, To_routes _⟩
+  | bool => exact ⟨_, rfl, rfl, rfl, rfl, Or.inr rfl, Or.inl rfl, To_routes _⟩
+  | str => exact ⟨_, rfl, rfl, rfl, rfl, Or.inr rfl, Or.inl rfl, To_routes _⟩
+  | big => exact ⟨_, rfl, rfl, rfl, rfl, Or.inr rfl, Or.inr rfl, To_routes _⟩
+
+/-- What `ZodBigInt.Parse` does before the engine call: only the nil-input guard (C03's business). -/
+theorem bigint_parse_pre :
+    (findParse "ZodBigInt" primitiveParse).map (·.pre) =
+      some "if isNilBigIntInput(input) { r, sub, done, err := z.parseNilInput(ctx...) if done { return r, err } input = sub }" := by
+  decide
+
 /-- **The truthy table is the one in the source**: `stringToBool` trims, lowers, and its switch
     holds exactly the words of `boolTable`. -/
 theorem bool_words (w : String) : boolTable w = boolWords.lookup w := by
